@@ -23,11 +23,14 @@ func execOrthoRouting(g *graph.DGraph, routes []routableEdge, params graph.Param
 			if r.ns[i-1].IsVirtual {
 				sp[1] += layerh
 			}
-			r.Points = append(r.Points, sp)
-			r.Points = append(r.Points, [2]float64{sp[0], sp[1] + halfLayerSpacing})
-
 			ep := endPoint(r.ns[i])
-			r.Points = append(r.Points, [2]float64{ep[0], ep[1] - halfLayerSpacing})
+			// both bends lie on the same horizontal line, half a layer spacing above the end point;
+			// measuring the first bend from the start point instead makes the middle segment slanted
+			// whenever the start node is shorter than its layer
+			bendY := ep[1] - halfLayerSpacing
+			r.Points = append(r.Points, sp)
+			r.Points = append(r.Points, [2]float64{sp[0], bendY})
+			r.Points = append(r.Points, [2]float64{ep[0], bendY})
 			r.Points = append(r.Points, ep)
 		}
 	}
